@@ -19,7 +19,8 @@ RULE = (
     "classes, generator types PCG64 / PCG64DXSM / Philox / MT19937 / SFC64 / legacy RandomState) and 2-3 "
     "variations of it: n_process in 1..4 with per-chain delay patterns (sleep inside the integration transition "
     "keyed by chain id, 0-30 ms per iteration) that permute completion order and worker assignment; extra chains "
-    "appended; other chains' initial states changed. Oracle: outputs bit-identical to the sequential baseline for "
+    "appended; other chains' initial states changed; initial states that share objects (one ChainState passed for every "
+    "chain, or distinct states sharing one momentum array under a partial momentum refresh) run with 1 and 2-3 processes. Oracle: outputs bit-identical to the sequential baseline for "
     "every process count / delay pattern and on repetition; with fully specified initial states and no adapters "
     "chain c is unchanged when other chains are added or start elsewhere; a probe records, at every iteration of "
     "every stage, the next 64-bit value of the generator handed to the chain (read from a copy of its state): all "
@@ -38,7 +39,7 @@ def _case(draw):
     nvar = draw(st.integers(2, 3))
     variations = []
     for _ in range(nvar):
-        kind = draw(st.sampled_from(["procs", "procs", "procs", "repeat", "extra-chains", "other-starts"]))
+        kind = draw(st.sampled_from(["procs", "procs", "procs", "repeat", "extra-chains", "other-starts", "alias-init"]))
         v = {"kind": kind}
         if kind == "procs":
             v["n_process"] = draw(st.integers(2, 4))
@@ -48,6 +49,9 @@ def _case(draw):
             v["q"] = [draw(vec(cfg["dim"], -1.0, 1.0)) for _ in range(k)]
             v["p"] = [draw(vec(cfg["dim"], -1.0, 1.0)) for _ in range(k)]
             v["n_process"] = draw(st.sampled_from([1, 2]))
+        elif kind == "alias-init":
+            v["how"] = draw(st.sampled_from(["same-object", "shared-momentum-array"]))
+            v["n_process"] = draw(st.integers(2, 3))
         elif kind == "other-starts":
             v["keep"] = draw(st.integers(0, cfg["n_chain"] - 1))
             v["q"] = [draw(vec(cfg["dim"], -1.0, 1.0)) for _ in range(cfg["n_chain"])]
@@ -109,10 +113,33 @@ def run_case(case) -> Result:
         return res
     multi_stage = cfg["n_warm"] > 0 and cfg["n_main"] > 0
     parallel_seen = False
-    independent = cfg["adapters"] == "none" and not (cfg["init"] == "array" and cfg["sampler"] != "generic")
+    independent = cfg["adapters"] == "none"
+    # HMC classes draw missing initial momenta (position-only initial states) for ALL chains from the base generator
+    # before the per-chain generators are derived from it: recorded as a known finding under its own key
+    momenta_from_base = cfg["init"] == "array" and cfg["sampler"] != "generic"
     for v in case["variations"]:
         kind = v["kind"]
         res.classes.append("variation:" + kind)
+        if kind == "alias-init":
+            # initial states that share objects (the same ChainState passed for every chain; one momentum array shared by
+            # several states): the output must not depend on the process count
+            try:
+                a = samp.alias_run(cfg, v["how"], 1)
+                b = samp.alias_run(cfg, v["how"], v["n_process"])
+            except Exception as e:  # noqa: BLE001
+                if through_code_under_test(e.__traceback__) is None:
+                    raise
+                res.fail(f"C14:alias-init:raises:{type(e).__name__}", f"[{v['how']}] sample_chains raised {type(e).__name__}: {e}")
+                return res
+            parallel_seen = True
+            same = all(np.array_equal(x[0], y[0]) and np.array_equal(x[1], y[1]) and x[2] == y[2] for x, y in zip(a[0], b[0])) \
+                and all(np.array_equal(x, y, equal_nan=True) for key in a[1] for x, y in zip(a[1][key], b[1][key]))
+            if not same:
+                res.fail(f"C14:depends-on-process-count:initial-states-share-objects[{v['how']}]",
+                         f"initial states sharing objects ({v['how']}): outputs with n_process=1 differ from n_process="
+                         f"{v['n_process']} (sampler static, generator {cfg['rng']})")
+                return res
+            continue
         if kind in ("procs", "repeat"):
             cfg2 = dict(cfg, n_process=v.get("n_process", 1))
             tag = f"np={cfg2['n_process']} delays={v.get('delays')}"
@@ -154,8 +181,14 @@ def run_case(case) -> Result:
                 if same and ta is not None:
                     same = all(np.array_equal(ta[k][c], tb[k][c], equal_nan=True) for k in ta)
                 if not same:
+                    if momenta_from_base and kind == "extra-chains":
+                        res.fail("C14:chain-depends-on-chain-count:initial-momenta-drawn-from-base-generator",
+                                 f"chain {c} of a {cfg['sampler']} run with position-only initial states changes when "
+                                 f"{len(v['q'])} chain(s) are added (no adapters, generator {cfg['rng']})")
+                        continue
                     res.fail("C14:chain-depends-on-other-chains", f"chain {c} changes when other chains are "
-                             f"{'added' if kind == 'extra-chains' else 'started elsewhere'} (no adapters, explicit momenta)")
+                             f"{'added' if kind == 'extra-chains' else 'started elsewhere'} (no adapters, "
+                             f"{'position-only initial states' if momenta_from_base else 'explicit momenta'})")
                     return res
     res.nontrivial = parallel_seen and (cfg["n_chain"] >= 2 or multi_stage)
     return res
